@@ -158,7 +158,7 @@ var c17ExtraKeys = []uint32{0, 0xffffffff, 0x000000ff, 0x0000ff00, 0x00ff0000, 0
 
 func TestC17(t *testing.T) {
 	rec := evid.For("C17")
-	rec.Rule = "enumeration: implementation x length x start alignment (address mod 64) x keys (one with four distinct bytes derived from VERIF_SEED and the case, 01 02 03 04; at alignments 0/1/63 also 0, ff ff ff ff and single-byte keys), random contents; 2-piece and 3-piece splits; buffers flush against PROT_NONE pages. Non-trivial: length >= 4 (non-empty word loop); distinct = (implementation, length, alignment, split-shape class)."
+	rec.Rule = "enumeration: implementation x length x start alignment (address mod 64) x keys (one with four distinct bytes derived from VERIF_SEED and the case, 01 02 03 04; at alignments 0/1/63 also 0, ff ff ff ff and single-byte keys), random contents; 2-piece and 3-piece splits; buffers flush against PROT_NONE pages; large buffers: lengths 2^k + {-65..129} for k = 13..22 and drawn lengths up to 4 MiB, whole and in two pieces, at alignments 0/1/15/63; concurrent updates of the neighbouring bytes. Non-trivial: length >= 4 (non-empty word loop); distinct = (implementation, length, alignment, split-shape class)."
 	seed := evid.Seed()
 	impls := maskImpls()
 	var rc c17Case
@@ -400,6 +400,64 @@ func TestC17Neighbours(t *testing.T) {
 				if *before != byte(k) || *after != byte(k) {
 					failCase(t, "C17", map[string]any{"impl": im.name, "align": align, "len": n, "neighbours": true},
 						"bytes next to the buffer lost concurrent updates while %s was masking it: before=%d after=%d, want %d (mod 256): the implementation rewrites memory outside the buffer", im.name, *before, *after, byte(k))
+				}
+			}
+		}
+	}
+}
+
+
+// TestC17Large: "for every length" does not stop at 4200. Implementations switch
+// strategy at sizes nobody writes down (unrolled loops, wider registers,
+// non-temporal stores for buffers beyond the cache): lengths around every power of
+// two from 8 KiB to 4 MiB, and drawn ones, whole and in two pieces, at several
+// alignments, with guard bytes, against the byte-loop definition.
+func TestC17Large(t *testing.T) {
+	rec := evid.For("C17")
+	seed := evid.Seed()
+	const maxLen = 4<<20 + 256
+	raw := make([]byte, 64+128+63+maxLen+c17Guard+64)
+	base := 0
+	for uintptr(unsafe.Pointer(&raw[base]))%64 != 0 {
+		base++
+	}
+	ar := &c17Arena{raw: raw, base: base}
+	var rc c17Case
+	if replayCase(t, &rc) {
+		for _, im := range maskImpls() {
+			if im.name == rc.Impl {
+				if msg := runC17(ar, im, rc); msg != "" {
+					failCase(t, "C17", rc, "%s", msg)
+				}
+			}
+		}
+		return
+	}
+	var lens []int
+	for k := 13; k <= 22; k++ {
+		for _, d := range []int{-65, -1, 0, 1, 63, 64, 65, 127, 128, 129} {
+			lens = append(lens, 1<<k+d)
+		}
+	}
+	for i := 0; i < evid.Scale(12, 200); i++ {
+		lens = append(lens, 4201+int(evid.Mix(seed, uint64(77e6)+uint64(i))%uint64(maxLen-4201)))
+	}
+	idx := uint64(0)
+	for _, im := range maskImpls() {
+		for _, align := range []int{0, 1, 15, 63} {
+			for _, l := range lens {
+				idx++
+				key := c17Keys(seed, uint64(l)*64+uint64(align))[0]
+				c := c17Case{Impl: im.name, Len: l, Align: align, Key: key, Seed: evid.Mix(seed, idx)}
+				msg := runC17(ar, im, c)
+				if msg == "" {
+					r := evid.Mix(seed, idx+1<<40)
+					c.Splits = []int{int(r % uint64(l+1))}
+					msg = runC17(ar, im, c)
+				}
+				rec.Case(true, fmt.Sprintf("%s/%d/%d/large", im.name, l, align), "impl:"+im.name, "large(8KiB..4MiB)")
+				if msg != "" {
+					failCase(t, "C17", c, "%s", msg)
 				}
 			}
 		}
